@@ -129,3 +129,39 @@ Example c12_no_stale_lock_nonvacuous :
     | _ => false end
   | _ => false end = true.
 Proof. vm_compute. reflexivity. Qed.
+
+(* (5) REFUTED (finding F-12a): "a node that has seen +2/3 precommits for a block finalises it once the
+   block arrives".  A node in the commit step that still waits for the block is pulled into a later
+   round by +2/3 of any prevotes of that round (enterNewRound has no guard for the commit step);
+   the round change drops the part set of the decided block, the parts that arrive afterwards are
+   ignored, and since every precommit of the deciding round is already counted nothing triggers the
+   commit again.  Witness (four validators): the node receives three precommits for block [7] in
+   round 0 (commit step, part set created), then three nil prevotes of round 1 that had been held
+   back, then the block: without the late prevotes it moves to height 2, with them it stays at
+   height 1 for good - the others have moved on and no longer vote at this height. *)
+Definition rx_vote (i : Z) (who : N) (t : N) (r : Z) (b : block_id) : vote :=
+  mkVote (ux_a who) i 1 r t b [who; Z.to_N r; t] true.
+Definition rx_decided : list input :=
+  [ITimeout 1 0 1; IVote (rx_vote 1 2 2 0 (blk_bid ux_B)) (ux_a 2); IVote (rx_vote 2 3 2 0 (blk_bid ux_B)) (ux_a 3);
+   IVote (rx_vote 3 4 2 0 (blk_bid ux_B)) (ux_a 4)].
+Definition rx_late_prevotes : list input :=
+  [IVote (rx_vote 1 2 1 1 nil_bid) (ux_a 2); IVote (rx_vote 2 3 1 1 nil_bid) (ux_a 3); IVote (rx_vote 3 4 1 1 nil_bid) (ux_a 4)].
+Definition rx_block : list input := [IPart 1 0 0 ux_B true (ux_a 2)].
+Definition rx_summary (r : res node) : option (Z * Z * Z * bool * bool) :=
+  match r with
+  | Ok n => Some (height n, round n, step n, match pparts n with Some _ => true | None => false end,
+                  match maj23 (hv_precommits (votes n) 0) with Some _ => true | None => false end)
+  | _ => None end.
+Theorem c12_decided_block_is_finalised_refuted :
+  exists n0, ux_n0 = Ok n0 /\
+  (* decided, waiting for the block: commit step, part set, +2/3 precommits *)
+  rx_summary (run (mkCfg false) rx_decided n0) = Some (1, 0, 8, true, true) /\
+  (* the block arrives: next height *)
+  rx_summary (run (mkCfg false) (rx_decided ++ rx_block) n0) = Some (2, 0, 1, false, false) /\
+  (* late prevotes of round 1 first: out of the commit step, part set gone, and the block no longer helps *)
+  rx_summary (run (mkCfg false) (rx_decided ++ rx_late_prevotes) n0) = Some (1, 1, 6, false, true) /\
+  rx_summary (run (mkCfg false) (rx_decided ++ rx_late_prevotes ++ rx_block) n0) = Some (1, 1, 6, false, true).
+Proof.
+  eexists. split; [vm_compute; reflexivity|]. repeat split; vm_compute; reflexivity.
+Qed.
+Print Assumptions c12_decided_block_is_finalised_refuted.
